@@ -5,7 +5,7 @@ import earleylib
 
 
 def check_earley(ctx, res):
-    stream, problems = earleylib.earley_stream(ctx, 8, 450, 9000, ntexts=5)
+    stream, problems = earleylib.earley_stream(ctx, 8, 2500, 30000, ntexts=5)
     for job, st, detail in problems:
         if st == 'exc':
             if not exc_in_lark(detail):
